@@ -532,7 +532,11 @@ def case_eigh_rho(ctx, i):
         ctx.violation('eigh_rho:W-values-wrong', '', case)
     sv = np.sqrt(ev / np.sum(ev))
     nk, info = model_truncate(sv, opts)
-    if nk is not None and not _near_cut_tie(sv, opts):
+    ev_raw = np.sort(np.linalg.eigvalsh(rho_d))[::-1]
+    near_zeroing = bool(np.any((np.abs(ev_raw) > 1e-16) & (np.abs(ev_raw) < 1e-12)))  # eigh_rho zeroes W < 1e-14: a tie there is round-off
+    if near_zeroing:
+        ctx.count('eigh_rho.near_zeroing_threshold')
+    if nk is not None and not _near_cut_tie(sv, opts) and not near_zeroing:
         gaps_ok = nk >= n or abs(sv[nk - 1] - sv[nk]) > 1e-7 * max(sv[nk - 1], 1e-300)
         if gaps_ok and k != nk:
             ctx.violation('eigh_rho:%s' % ('keeps-too-few' if k < nk else 'keeps-too-many'),
